@@ -42,6 +42,7 @@ unsupported solver -> RuntimeError, unknown `sameas` -> ValueError, not a CNF
 directory are identical before and after every call.
 """
 import os
+import json
 import io
 import re
 import ast
@@ -205,6 +206,20 @@ def main(rec):
                 'fallback': fallback})
     out = sys.stdout.buffer
     ans = g('ans', 'honest')
+    strict = os.environ.get('C20_STRICT', '')
+    if strict:
+        # the caller named no command: a solver found on the machine is run the
+        # way IT is documented to work; called any other way it fails like the
+        # real program would
+        import json as _json
+        native = _json.loads(strict).get(os.path.basename(argv0))
+        if native is not None and native != conv:
+            rec['wrong_convention'] = [native, conv]
+            out.write(b'usage error: this solver does not work that way\n')
+            with open(os.environ['C20_LOG'], 'a') as f:
+                f.write(repr(rec) + '\n')
+            out.flush()
+            sys.exit(1)
 
     def finish(code, kill=False):
         rec['exit'] = 'KILL' if kill else code
@@ -487,7 +502,7 @@ class Env:
             f.write('this file was here before the call\n')
         self._inst = None
         self._saved_env = {k: os.environ.get(k) for k in
-                           ('PATH', 'TMPDIR', 'TEMP', 'TMP', 'C20_LOG', 'C20_SHAPE')}
+                           ('PATH', 'TMPDIR', 'TEMP', 'TMP', 'C20_LOG', 'C20_SHAPE', 'C20_STRICT')}
         self._saved_tempdir = tempfile.tempdir
         self._saved_cwd = os.getcwd()
         self._saved_stderr = sys.stderr
@@ -1015,7 +1030,23 @@ def execute(case, env, names):
     env.install(expand_inst(case['inst'], names))
     env.set_tmp(case.get('tmpkind', 'plain'))
     os.environ['C20_SHAPE'] = case.get('shape') or ''
+    c_ = case.get('cmd')
+    if (c_ is None or (isinstance(c_, str) and not c_.split())) and case.get('strict'):
+        os.environ['C20_STRICT'] = json.dumps({k_: v_ for k_, v_ in conventions().items() if v_})
+    else:
+        os.environ['C20_STRICT'] = ''
     X = build_formula(case['F'])
+    vandal_ = None
+    if case.get('vandal'):
+        # the caller asked which solvers are supported and edited the list it
+        # was given (filtering it for a report, say): the list is the caller's
+        from cnfgen.utils.solver import supported_satsolvers
+        lst_ = supported_satsolvers()
+        if isinstance(lst_, list):
+            vandal_ = (lst_, list(lst_))
+            lst_.reverse()
+            del lst_[1:]
+            lst_.append('c20-not-a-solver')
     cmd = case.get('cmd')
     if isinstance(cmd, str):
         cmd = cmd.replace('@PA@', env.pa)
@@ -1084,6 +1115,8 @@ def execute(case, env, names):
         obs[tag] = {'out': o, 'log': env.read_log(), 'added': added, 'removed': removed,
                     'changed': changed, 'cwd_moved': cwd1 != cwd0,
                     'fds': (fds0, _open_descriptors())}
+    if vandal_ is not None:
+        vandal_[0][:] = vandal_[1]        # (matters only if the list was the library's own)
     return obs
 
 
@@ -1566,6 +1599,28 @@ def all_cases(tier, seed):
             cases.append(mk('select-blank-cmd', F_SAT, cmd=cmd, inst=[[names[i], 'ok']]))
     for cmd in ('', '   '):
         cases.append(mk('select-blank-cmd', F_SAT, cmd=cmd, inst=[]))
+    # the caller edited the list supported_satsolvers() gave it
+    for nm in reps:
+        for F_ in (F_SAT, F_UNSAT):
+            c_ = mk('vandal', F_, cmd=nm, shape=spec_str(fam_of(conv, nm), {}))
+            c_['vandal'] = True
+            cases.append(c_)
+            c_ = mk('vandal', F_, cmd=None, inst=[[nm, 'ok']])
+            c_['vandal'] = True
+            cases.append(c_)
+            c_ = mk('vandal', F_, cmd='c20-mysolver', sameas=nm)
+            c_['vandal'] = True
+            cases.append(c_)
+    # no command but a `sameas`: the solver found is still run its own way (the
+    # stand-ins are strict here: each speaks only the convention of its name)
+    for i in range(k):
+        for j in range(k):
+            if conv.get(names[i]) and conv.get(names[j]) and conv[names[i]] != conv[names[j]]:
+                for cmd in (None, '', '  '):
+                    c_ = mk('select-sameas', F_SAT if (i + j) % 2 else F_UNSAT, cmd=cmd, sameas=names[j],
+                            inst=[[names[i], 'ok']])
+                    c_['strict'] = True
+                    cases.append(c_)
     kinds = ['nonexec', 'dir', 'dangling', 'badinterp', 'shadowed']
     for i in range(k):
         nxt = names[(i + 1) % k]
